@@ -171,6 +171,9 @@ def parse_element(
     ):
         if keyword in schema:
             schema[keyword] = parser(schema, state)  # type: ignore
+    if not schema.get("properties", True):
+        # An empty `properties` is not serialised: keep the normal form stable.
+        del schema["properties"]
     schema["additionalProperties"] = _parse_additional_properties(schema, state)
     schema["additionalItems"] = _parse_additional_items(schema, state)
     if set(COMPOSITION_KEYWORDS) & set(schema):
